@@ -261,7 +261,8 @@ Defns ==
        d \in Dialects, S \in {{1}, {3, 6}}, m \in 1..6, b \in IF Thorough THEN 0..7 ELSE {0, 3}}
   (* schema rotation (nullable, writeOnly, nested references) and references *)
   \cup {Mk(d, S, FALSE, FALSE, IF d = "2.0" THEN 2 ELSE 3, b, 1, rr, rs, FALSE, "refs") :
-       d \in Dialects, S \in IF Thorough THEN {{1}, {1, 6}, {3}, {2, 3, 6}} ELSE {{1, 6}, {3}}, b \in 0..7, rr \in BOOLEAN, rs \in BOOLEAN}
+       d \in Dialects, S \in IF Thorough THEN {{1}, {1, 6}, {3}, {2, 3, 6}} ELSE {{1, 6}, {3}},
+       b \in IF Thorough THEN 0..7 ELSE {0, 2, 4, 6}, rr \in BOOLEAN, rs \in BOOLEAN}
   (* headers *)
   \cup {Mk(d, S, FALSE, FALSE, 2, 0, h, rr, FALSE, rh, "headers") :
        d \in Dialects, S \in IF Thorough THEN {{1}, {3}, {6}, {1, 3, 6}, {4, 5}} ELSE {{1}, {3}, {1, 3, 6}},
